@@ -16,6 +16,29 @@ pub fn lift(r: Result<(), oracle::OFail>, ctx: &mut CaseCtx) -> Result<(), Fail>
     }
 }
 
+/// Second opinion next to the canonical image (which goes through `Serialize` and would not
+/// see a field that the serde derive skips): the `Debug` rendering. Not applicable to values
+/// holding a hash map with more than one entry (iteration order differs between instances).
+fn debug_differs<T: std::fmt::Debug>(a: &T, b: &T) -> Option<String> {
+    let (x, y) = (format!("{a:?}"), format!("{b:?}"));
+    if x == y {
+        return None;
+    }
+    let at = x.bytes().zip(y.bytes()).position(|(p, q)| p != q).unwrap_or(x.len().min(y.len()));
+    let lo = at.saturating_sub(40);
+    let cut = |s: &str| -> String { s.chars().skip(lo).take(100).collect() };
+    Some(format!("Debug renderings differ near byte {at}: ...{} vs ...{}", cut(&x), cut(&y)))
+}
+
+fn message_debug_comparable(m: &tensor_chain::network::Message) -> bool {
+    use tensor_chain::network::Message;
+    match m {
+        Message::TxReconcileRequest(r) => r.pending_txs.iter().all(|p| p.votes.len() <= 1),
+        Message::TxReconcileResponse(r) => r.pending_txs.iter().all(|p| p.votes.len() <= 1),
+        _ => true,
+    }
+}
+
 fn ref_leb_encode(values: &[u64]) -> Vec<u8> {
     let mut out = Vec::new();
     for &v in values {
@@ -637,7 +660,7 @@ pub fn wal_write(c: &WalCase, path: &std::path::Path) -> Result<Vec<nv_c20::cano
         WalKind::Store => {
             use tensor_store::wal::{TensorWal, WalConfig};
             let entries: Vec<_> = c.variants.iter().map(|v| build::store_wal_entry(usize::from(*v), &mut cur)).collect();
-            expect = entries.iter().map(canon).collect();
+            expect = entries.iter().map(oracle::wal_image).collect();
             let mut cfg = WalConfig::default();
             cfg.enable_checksums = c.checksums;
             cfg.verify_on_replay = c.verify;
@@ -655,7 +678,7 @@ pub fn wal_write(c: &WalCase, path: &std::path::Path) -> Result<Vec<nv_c20::cano
         WalKind::Raft => {
             use tensor_chain::raft_wal::{RaftWal, WalConfig};
             let entries: Vec<_> = c.variants.iter().map(|v| build::raft_wal_entry(usize::from(*v), &mut cur)).collect();
-            expect = entries.iter().map(canon).collect();
+            expect = entries.iter().map(oracle::wal_image).collect();
             let mut cfg = WalConfig::default();
             cfg.enable_checksums = c.checksums;
             cfg.verify_on_replay = c.verify;
@@ -671,7 +694,7 @@ pub fn wal_write(c: &WalCase, path: &std::path::Path) -> Result<Vec<nv_c20::cano
             use tensor_chain::raft_wal::WalConfig;
             use tensor_chain::tx_wal::TxWal;
             let entries: Vec<_> = c.variants.iter().map(|v| build::tx_wal_entry(usize::from(*v), &mut cur)).collect();
-            expect = entries.iter().map(canon).collect();
+            expect = entries.iter().map(oracle::wal_image).collect();
             let mut cfg = WalConfig::default();
             cfg.enable_checksums = c.checksums;
             cfg.verify_on_replay = c.verify;
@@ -811,6 +834,11 @@ pub fn frame_check(c: &FrameCase, ctx: &mut CaseCtx) -> Result<(), Fail> {
             if let Some(d) = diff(&want, &canon(&m2)) {
                 ctx.fail(format!("bitcode:roundtrip:{name}"), d)?;
             }
+            if message_debug_comparable(&msg) {
+                if let Some(d) = debug_differs(&msg, &m2) {
+                    ctx.fail(format!("bitcode:roundtrip:{name}"), d)?;
+                }
+            }
         },
         Err(e) => ctx.fail(format!("bitcode:rejected:{name}"), e.to_string())?,
     }
@@ -893,6 +921,11 @@ pub fn frame_check(c: &FrameCase, ctx: &mut CaseCtx) -> Result<(), Fail> {
         Ok(Some(m2)) => {
             if let Some(d) = diff(&want, &canon(&m2)) {
                 ctx.fail(format!("frame:{v}:roundtrip:{name}"), d)?;
+            }
+            if message_debug_comparable(&msg) {
+                if let Some(d) = debug_differs(&msg, &m2) {
+                    ctx.fail(format!("frame:{v}:roundtrip:{name}"), d)?;
+                }
             }
         },
         Ok(None) => ctx.fail(format!("frame:{v}:decoder-sees-eof"), "complete frame read as end of stream".to_string())?,
